@@ -32,13 +32,18 @@ def outerLoop (data : List UInt32) (j : Nat) (s : RS) : RS :=
   if j < 64 then outerLoop data (j + 16) (innerLoop data j 0 s) else s
 termination_by 64 - j
 
-/-- `Transform(UInt32 *state, const UInt32 *data)` (the non-unrolled variant): `T[j] = state[j]`,
-the 4 × 16 rounds over the rolling window `W[16]` (uninitialised before the first 16 rounds:
-modelled as zeros, every cell is written by `blk0` before it is read), `state[j] += T[j]`. -/
-def transform (state data : List UInt32) : List UInt32 :=
+/-- `Transform(UInt32 *state, const UInt32 *data)` (the non-unrolled variant) started with the local
+array `W[16]` holding `w0` (it is uninitialised in C++): `T[j] = state[j]`, the 4 × 16 rounds over the
+rolling window, `state[j] += T[j]`. -/
+def transformFrom (w0 : List UInt32) (state data : List UInt32) : List UInt32 :=
   let T := (List.range 8).map fun j => state.getD j 0
-  let s := outerLoop data 0 { T := T, W := List.replicate 16 0 }
+  let s := outerLoop data 0 { T := T, W := w0 }
   (List.range 8).map fun j => state.getD j 0 + s.T.getD j 0
+
+/-- `Transform` as executed by the model driver: the uninitialised `W` is zeros (every cell is written
+by `blk0` before it is read: `transform_ignores_uninitialised_W` in Props.lean) -/
+def transform (state data : List UInt32) : List UInt32 :=
+  transformFrom (List.replicate 16 0) state data
 
 /-- `data32[i] = (buffer[4i] << 24) + (buffer[4i+1] << 16) + (buffer[4i+2] << 8) + buffer[4i+3]` -/
 def data32 (buffer : List UInt8) : List UInt32 :=
